@@ -95,6 +95,20 @@ func mkWorkloads(long bool) []*workload {
 	// 4. pruning with tiny block files
 	o3 := append(append([]*lab.Blk(nil), A...), B...)
 	wl = append(wl, &workload{Name: "prune", w: w, order: o3, prune: 2500, blockFile: 600})
+	// 5. pruning on a long linear chain: the node keeps two small block files, so
+	// files written after a flush are pruned again while the node runs on (what a
+	// recovery leaves in memory decides whether the cache is flushed first)
+	o4 := append([]*lab.Blk(nil), A...)
+	prev := A[len(A)-1]
+	for i := 1; i <= 14; i++ {
+		e := lab.Build(w.Params, prev, lab.BOpt{Tag: uint32(9100 + i), Name: fmt.Sprintf("E%d", i)})
+		w.ByHash[e.Hash] = e
+		w.All = append(w.All, e)
+		o4 = append(o4, e)
+		prev = e
+	}
+	w.Universe = lab.Universe(w.All)
+	wl = append(wl, &workload{Name: "prune-long", w: w, order: o4, prune: 1400, blockFile: 700})
 	return wl
 }
 
@@ -249,6 +263,9 @@ type crashCase struct {
 	// RecCache is the utxo cache size used when reopening after the crash
 	// (operators restart with different settings); -1 = same as before.
 	RecCache int64 `json:"recovery_cache"`
+	// LaterCrash = m+1: after the recovery the workload is fed again and the
+	// process dies a second time before commit m of that run; 0 = no later crash.
+	LaterCrash int `json:"later_crash_before_refeed_commit_plus_1,omitempty"`
 }
 
 type baseline struct {
@@ -361,6 +378,29 @@ func runCase(wl *workload, base *baseline, cc crashCase) (string, int) {
 	if what := r.checkState(base.activeAt[min(cc.K, len(base.activeAt)-1)], delivered, wl.prune != 0); what != "" {
 		return what, recCommits
 	}
+	if cc.LaterCrash > 0 {
+		// the recovered node keeps running (same deliveries again) and dies later
+		r.cdb.crashAt = r.cdb.commits + cc.LaterCrash - 1
+		crashed3, problem := r.deliver(nil)
+		if problem != "" {
+			return "re-feeding the workload after recovery: " + problem, recCommits
+		}
+		if !crashed3 {
+			return "", -2 // the second run has fewer commits than m
+		}
+		r.die()
+		if _, err := r.open(-1, false); err != nil {
+			return fmt.Sprintf("reopen failed after a later crash (first crash before commit %d, recovery, workload fed again, second crash before commit %d of that run): %v", cc.K, cc.LaterCrash-1, err), recCommits
+		}
+		all := make([]bool, len(delivered))
+		copy(all, delivered)
+		for i := range all {
+			all[i] = all[i] || r.retOK[i]
+		}
+		if what := r.checkState(base.activeAt[len(base.activeAt)-1], all, wl.prune != 0); what != "" {
+			return "after a later crash: " + what, recCommits
+		}
+	}
 	// convergence: feed everything again
 	if what := r.converge(base.finalTip, base.finalUtxo); what != "" {
 		return what, recCommits
@@ -441,6 +481,15 @@ func main() {
 			Kind string `json:"kind"`
 		}
 		r.LoadReplay(&kind)
+		if kind.Kind == "pruneflush" {
+			var pc pruneFlushCase
+			r.LoadReplay(&pc)
+			if what := pruneFlushOne(wls[0].w, pc); what != "" {
+				r.Violation("prune-flush-decision", what, pc)
+			}
+			r.Eval(1)
+			r.Finish(false)
+		}
 		if kind.Kind == "img" { // part 2: one crash image
 			var ic imgCase
 			r.LoadReplay(&ic)
@@ -473,6 +522,7 @@ func main() {
 		budget = 40 * time.Minute
 	}
 	r.SetBudget(budget)
+	partPruneFlush(r, wls[0].w)
 	caches := []uint64{0, 1000, 64 << 20} // 1000 bytes: fills up and flushes by itself every few blocks
 	nested := true
 	complete := true
@@ -559,9 +609,39 @@ func main() {
 					}
 				})
 			}
-			stats[fmt.Sprintf("%s/cache=%d", wl.Name, cache)] = map[string]interface{}{"commits": base.commits, "crash_points": n1, "nested_crash_points": n2}
-			r.State(n1 + n2)
-			r.Trans((n1 + n2) * len(wl.order))
+			// a later, independent crash of the recovered node (pruning workloads:
+			// what is deleted then depends on what the recovery left in memory)
+			n3 := 0
+			if wl.prune != 0 && (long || cache == 64<<20) {
+				ev.Par(base.commits, runtime.NumCPU(), func(k int) {
+					for m := 0; ; m++ {
+						if r.Expired() {
+							mu.Lock()
+							complete = false
+							mu.Unlock()
+							return
+						}
+						cc := crashCase{Workload: wl.Name, Cache: cache, K: k, J: -1, Long: long, RecCache: -1, LaterCrash: m + 1}
+						what, rc := runCase(wl, base, cc)
+						if rc == -2 {
+							return
+						}
+						r.Eval(1)
+						r.Trace(1)
+						r.Nontrivial(fmt.Sprintf("%s/%d/%d/later%d", wl.Name, cache, k, m))
+						mu.Lock()
+						n3++
+						mu.Unlock()
+						if what != "" {
+							report(r, wl, base, cc, what)
+							return
+						}
+					}
+				})
+			}
+			stats[fmt.Sprintf("%s/cache=%d", wl.Name, cache)] = map[string]interface{}{"commits": base.commits, "crash_points": n1, "nested_crash_points": n2, "later_crash_points": n3}
+			r.State(n1 + n2 + n3)
+			r.Trans((n1 + n2 + n3) * len(wl.order))
 			if n1 > 0 {
 				r.Sample(crashCase{Workload: wl.Name, Cache: cache, K: base.commits / 2, J: -1, Long: long, RecCache: -1})
 			}
@@ -596,9 +676,12 @@ func report(r *ev.Run, wl *workload, base *baseline, cc crashCase, what string) 
 	if cc.J >= 0 {
 		nest = "nested"
 	}
+	if cc.LaterCrash > 0 {
+		nest = "later-crash"
+	}
 	if i := strings.Index(what, "[cause: "); i >= 0 {
 		cls = "convergence/" + strings.TrimSuffix(what[i+8:], "]")
 		nest = "any"
 	}
-	r.Violation(fmt.Sprintf("%s/%s/%s", wl.Name, nest, strings.ReplaceAll(cls, " ", "-")), fmt.Sprintf("workload=%s cache=%d recovery-cache=%d crash-before-commit=%d second-crash=%d: %s", cc.Workload, cc.Cache, cc.RecCache, cc.K, cc.J, what), cc)
+	r.Violation(fmt.Sprintf("%s/%s/%s", wl.Name, nest, strings.ReplaceAll(cls, " ", "-")), fmt.Sprintf("workload=%s cache=%d recovery-cache=%d crash-before-commit=%d second-crash=%d later-crash=%d: %s", cc.Workload, cc.Cache, cc.RecCache, cc.K, cc.J, cc.LaterCrash-1, what), cc)
 }
